@@ -687,6 +687,10 @@ class Zone(dns.transaction.TransactionManager):
             else:
                 txt_is_utf8 = style.txt_is_utf8
             style = style.replace(idna_codec=idna_codec, txt_is_utf8=txt_is_utf8)
+        if style.want_generic and style.origin is None and self.relativize:
+            # The generic (RFC 3597) form is made from the wire form, which needs
+            # absolute names, so relative names stored in the zone need its origin.
+            style = style.replace(origin=self.origin, relativize=True)
         if isinstance(f, str):
             cm: contextlib.AbstractContextManager = open(f, "wb")
         else:
